@@ -294,6 +294,8 @@ namespace c13
         cmp_scal(4, "Matrix::rows<native>", true, (long double)B.N, 0); cmp_scal(5, "bytes() > 0", true, 1.0L, 0);
         cmp_vec(0, "Matrix::apply_transposed", true, [&](int, Index b, int c) { return ATu(b, c); }, zero);
         cmp_vec(1, "Matrix::apply_transposed(r,x,y,alpha)", p2, [&](int, Index b, int c) { return (long double)val_v(b, c) + 0.5L * ATu(b, c); }, [&](int, Index b, int c) { return fabsl((long double)val_v(b, c)) + absATu(b, c); });
+        cmp_vec(2, "Matrix::apply_async", true, [&](int, Index b, int c) { return Au(b, c); }, zero);
+        cmp_vec(3, "Matrix::apply_async(r,x,y,alpha)", p2, [&](int, Index b, int c) { return (long double)val_v(b, c) - 0.5L * Au(b, c); }, [&](int, Index b, int c) { return fabsl((long double)val_v(b, c)) + absAu(b, c); });
         double mn = 1e300, mxe = -1e300, mne = 1e300;
         for(Index i = 0; i < B.N; ++i) for(int c = 0; c < bs; ++c) { mn = std::min(mn, fabs(val_u(i, c))); mxe = std::max(mxe, val_u(i, c)); mne = std::min(mne, val_u(i, c)); }
         cmp_scal(6, "min_abs_element_async", true, mn, 0); cmp_scal(7, "max_element_async", true, mxe, 0); cmp_scal(8, "min_element_async", true, mne, 0);
@@ -302,8 +304,20 @@ namespace c13
         {
           auto RTu = [&](Index b, int c) { long double s2 = 0; for(Index j = 0; j < B.N; ++j) for(int q = 0; q < 2; ++q) s2 += (long double)B.a(j, b) * blockR(q, c) * val_u(j, q); return s2; };
           auto absRTu = [&](Index b, int c) { long double s2 = 0; for(Index j = 0; j < B.N; ++j) for(int q = 0; q < 2; ++q) s2 += fabsl((long double)B.a(j, b) * blockR(q, c) * val_u(j, q)); return s2; };
-          cmp_vec_n(2, "rect-block Matrix::apply_transposed", true, 3, [&](int, Index b, int c) { return RTu(b, c); }, zero);
-          cmp_vec_n(3, "rect-block Matrix::apply_transposed(r,x,y,alpha)", p2, 3, [&](int, Index b, int c) { return (long double)val_v(b, c) - 0.5L * RTu(b, c); }, [&](int, Index b, int c) { return fabsl((long double)val_v(b, c)) + absRTu(b, c); });
+          for(int r = 0; r < P && V.ok(); ++r)
+          {
+            const auto& R = *w.ranks[size_t(r)];
+            if(outs[size_t(r)].mat.size() != size_t(R.ndofs) * 6u) { V.fail("rect-block apply_transposed: rank " + std::to_string(r) + " delivered no vectors"); break; }
+            for(Index j = 0; j < R.ndofs && V.ok(); ++j) for(int c = 0; c < 3; ++c)
+            {
+              const Index b = R.p2b[size_t(j)];
+              const double g1 = outs[size_t(r)].mat[size_t(j) * 3u + size_t(c)], g2 = outs[size_t(r)].mat[size_t(R.ndofs) * 3u + size_t(j) * 3u + size_t(c)];
+              const long double w1 = RTu(b, c), w2 = (long double)val_v(b, c) - 0.5L * RTu(b, c);
+              if(!same_bits(g1, double(w1))) { std::ostringstream o; o.precision(17); o << "rect-block Matrix::apply_transposed: " << name(r, j, c) << " = " << g1 << ", expected " << double(w1); V.fail(o.str()); break; }
+              const bool ok2 = p2 ? same_bits(g2, double(w2)) : (fabsl((long double)g2 - w2) <= 32.0L * eps * (fabsl(w2) + fabsl((long double)val_v(b, c)) + absRTu(b, c)));
+              if(!ok2) { std::ostringstream o; o.precision(17); o << "rect-block Matrix::apply_transposed(r,x,y,alpha): " << name(r, j, c) << " = " << g2 << ", expected " << double(w2); V.fail(o.str()); break; }
+            }
+          }
           cmp_scal(9, "rect-block Matrix::rows", true, (long double)B.N * 2, 0); cmp_scal(10, "rect-block Matrix::columns", true, (long double)B.N * 3, 0);
           ks = 11;
         }
@@ -566,7 +580,10 @@ namespace c13
       "rank interleaving between MPI calls is not enumerated: ranks share no data and every Waitany answer set is taken after maximal progress of all other ranks (DESIGN 2.2)",
       "FEAT's process-global statics (MemoryPool, Statistics) are shared by the rank threads; they do not influence results",
       "patch->base dof identification uses exact vertex coordinates and Space::DofAssignment (the space layer is C15's subject)",
-      "reductions are evaluated in rank order by the model; on the exact alphabet this cannot influence results"};
+      "reductions are evaluated in rank order by the model; on the exact alphabet this cannot influence results",
+      "coverage audit, not exercised and outside the enumerated space: the FEAT_MPI_THREAD_MULTIPLE variant of SynchScalarTicket (helper thread per reduction); Gate/Muxer/SynchMatrix for tuple and power containers "
+      "(control/asm build_gate_tuple / build_muxer_tuple, SynchMatrix<PowerDiagMatrix>); VectorMirror gather/scatter for SparseVector(Blocked) (only used by the slip filter assembly); "
+      "checkpoint functions of Global::Vector/Matrix (serialisation is C05); Gate::bytes-like statistics are only checked for > 0; the non-MPI dummy implementations in kernel/util/dist.cpp are compiled out in this variant"};
     spec.deadline_quick_s = 240; spec.deadline_thorough_s = 3000;
 
     return verif::run(spec, argc, argv, [&](verif::Ctx& c)
